@@ -27,6 +27,10 @@ macro_rules! core_local {
             let key = PasetoSymmetricKey::<$v, Local>::from(Key::from(*b"wubbalubbadubdubwubbalubbadubdub"));
             let nonce = Key::<$nlen>::from([7u8; $nlen]);
             let nonce = PasetoNonce::<$v, Local>::from(&nonce);
+            // client idioms that rely on there being exactly one AsRef / Deref target
+            if key.as_ref().len() != 32 || nonce.as_ref().len() != $nlen || nonce.len() != $nlen {
+                return Err("key / nonce inspection".into());
+            }
             let token = Paseto::<$v, Local>::builder()
                 .set_payload(Payload::from(MSG))
                 .set_footer(Footer::from(FOOTER))
@@ -71,6 +75,13 @@ macro_rules! core_public {
         fn $name() -> Result<(), String> {
             use rusty_paseto::core::*;
             pub_keys!($v, sk, pk);
+            if sk.as_ref().is_empty() || pk.as_ref().is_empty() {
+                return Err("key inspection".into());
+            }
+            let footer = Footer::from(FOOTER);
+            if footer.as_ref().len() != FOOTER.len() || footer.len() != FOOTER.len() {
+                return Err("footer inspection".into());
+            }
             let token = Paseto::<$v, Public>::builder()
                 .set_payload(Payload::from(MSG))
                 .set_footer(Footer::from(FOOTER))
@@ -97,6 +108,9 @@ macro_rules! upper_local {
         fn $name() -> Result<(), String> {
             use rusty_paseto::$modname::*;
             let key = PasetoSymmetricKey::<$v, Local>::from(Key::from(*b"wubbalubbadubdubwubbalubbadubdub"));
+            if key.as_ref().len() != 32 {
+                return Err("key inspection".into());
+            }
             let token = $builder::<$v, Local>::default()
                 .set_claim(CustomClaim::try_from(("data", "smoke message")).map_err(e)?)
                 .set_claim(SubjectClaim::from("smoke"))
